@@ -322,3 +322,7 @@ Example C04_refuted_values :
   pick 0 rops (snd (erun 1 0 50 rops e [])) = [xans "a"; xans "b"; otag "done" []]
   /\ snd (erun 1 0 50 (filter (is_slot 0) rops) e []) = [xans "a"; otag "done" []; otag "done" []].
 Proof. exact ex_refuted_values. Qed.
+
+(* the hypotheses of the read-only theorem C04_same_engine_slots hold for the run of C04_nonvacuous_slots *)
+Example C04_nonvacuous_readonly : nowrite 1 0 50 xops xe [] /\ Forall qop xops /\ sinv 1 0 xPQ xe [].
+Proof. exact ex_nowrite. Qed.
